@@ -9,13 +9,15 @@ import io
 import itertools
 
 import responses
+from pathlib import Path
 
 from .. import env
 from .. import core
 from ..core import require, Violation
 
 env.import_phylib()
-from phylib.io.datasets import download_file  # noqa: E402
+from phylib.io import datasets as _ds  # noqa: E402
+from phylib.io.datasets import download_file, download_test_file  # noqa: E402
 from phylib.utils import event as _event  # noqa: E402
 
 ID = 'C20'
@@ -71,7 +73,8 @@ def _cases(th):
                     k += 1
                     # the checksum file is served as text/plain or as application/octet-stream
                     yield {'data': ds, 'ck': ck, 'ckind': ckind, 'prior': prior, 'size': size,
-                           'ctype': k % 2, 'fmt': (k // 2) % 8, 'pathkind': (k // 16) % 4}
+                           'ctype': k % 2, 'fmt': (k // 2) % 8, 'pathkind': (k // 16) % 4,
+                           'route': (k // 64) % 2}
 
 
 def _big_cases(th):
@@ -204,10 +207,15 @@ def check(case):
             return (200, hdr, wrong_checksum(md5_good, fmt) + tail)
         return (404, {}, 'not found')
 
+    _ds._BASE_URL = URL[:-len('file.bin')]
     with env.scratch() as d:
         p = d / 'target.bin'
         p_arg = p
         pk = case.get('pathkind', 0)
+        if case.get('route'):
+            pk = 0
+            (d / 'test_data').mkdir()
+            p = p_arg = d / 'test_data' / 'file.bin'
         if pk == 1:
             p_arg = str(p)
         elif pk == 2:
@@ -231,7 +239,14 @@ def check(case):
             try:
                 _event.reset()  # progress callbacks registered by earlier cases
                 with contextlib.redirect_stdout(io.StringIO()), core.ambient_ctx():
-                    download_file(URL, p_arg)
+                    if case.get('route'):
+                        # the convenience wrapper: <config dir>/test_data/<name>, from a base URL
+                        ret = download_test_file('file.bin', config_dir=d,
+                                                 force=case['prior'] != 'absent')
+                        require(Path(ret) == p, 'download_test_file returned another path',
+                                key='wrapper-path', observed=ret, expected=p)
+                    else:
+                        download_file(URL, p_arg)
                 outcome = 'return'
             except RuntimeError:
                 outcome = 'runtime-error'
@@ -284,5 +299,6 @@ def classify(case, info):
         labels.append('retried')
     if case['size'] > 2 ** 20:
         labels.append('body>1MiB')
+    labels.append('route:' + ['download_file', 'download_test_file'][case.get('route', 0)])
     labels.append('path:' + ['Path', 'str', 'symlinked-dir/..', 'symlinked-dir'][case.get('pathkind', 0)])
     return labels, nt
